@@ -457,6 +457,7 @@ inductive SDB.Op where
   | storageRollback (c r : Nat)
   /-- `BlockState.Rollback` -/
   | rollback (sn : BlockSnap)
+deriving DecidableEq, Repr
 
 /-- `sn` was taken at or after `base`: no revision of `sn` is below `base`'s, and every storage
 staged at `base` is known to `sn`. (A rollback to a snapshot that does not cover `base`
@@ -548,6 +549,10 @@ inductive BOp where
   | snap
   /-- `BlockState.Rollback` to the `j`-th live snapshot; the later ones are discarded -/
   | rollbackTo (j : Nat)
+  /-- forget all live snapshots but the first `n` without reverting anything (the executor drops its
+  snapshot when the transaction succeeded) -/
+  | keep (n : Nat)
+deriving DecidableEq, Repr
 
 /-- Admissibility of a mutation while `top` is the innermost live block snapshot: a contract-level
 rollback must not go below it (`revertState` only reverts to recovery points of the running
@@ -577,6 +582,7 @@ def runB : SDB × List BlockSnap → List BOp → Option (SDB × List BlockSnap)
       match s.blockRollback b with
       | some s' => runB (s', sn.take (j + 1)) t
       | none => none
+  | (s, sn), .keep n :: t => runB (s, sn.take n) t
 
 /-- The surviving operations: `marks[j]` is the length of the surviving list when the `j`-th live
 snapshot was taken; reverting to it truncates the list there. (This is the list the harness replays
@@ -589,6 +595,7 @@ def survivorsAux : List SDB.Op × List Nat → List BOp → List SDB.Op × List 
     match marks[j]? with
     | some m => survivorsAux (live.take m, marks.take (j + 1)) t
     | none => survivorsAux (live, marks) t
+  | (live, marks), .keep n :: t => survivorsAux (live, marks.take n) t
 
 def survivors (h : List BOp) : List SDB.Op := (survivorsAux ([], []) h).1
 
@@ -644,6 +651,7 @@ def run : Spec × List Spec → List BOp → Spec × List Spec
     match stk[j]? with
     | some σ' => run (σ', stk.take (j + 1)) t
     | none => run (σ, stk) t
+  | (σ, stk), .keep n :: t => run (σ, stk.take n) t
 
 end Spec
 
@@ -697,6 +705,7 @@ The result: the committed StateDB and everything written to the store. -/
 inductive POp where
   | db (o : BOp)
   | raw (t : Nat)
+deriving DecidableEq, Repr
 
 def POp.dbOps : List POp → List BOp
   | [] => []
@@ -719,6 +728,7 @@ def survivorsPAux : List POp × List Nat → List POp → List POp × List Nat
     match marks[j]? with
     | some m => survivorsPAux (live.take m, marks.take (j + 1)) t
     | none => survivorsPAux (live, marks) t
+  | (live, marks), .db (.keep n) :: t => survivorsPAux (live, marks.take n) t
 
 def survivorsP (h : List POp) : List POp := (survivorsPAux ([], []) h).1
 
